@@ -16,7 +16,7 @@ import numpy as np
 from lib import floatq as fq
 from props import _jk_common as jk
 
-ALLOWED_AXIOMS = []
+ALLOWED_AXIOMS = ["sig_forall_dec", "sig_not_dec", "functional_extensionality_dep", "classic"]  # only under C04_nz_sqrt_form / _unique (reals)
 TRUSTED = [
     "symbolic-trace translator (harness/props/_jk_common.py: operator-overloading symbols in numpy object arrays; "
     "assumes the traced functions branch only on structure, not on values)",
